@@ -48,4 +48,9 @@ def plan(ctx, tier, seed):
     for k in kinds:
         ops = build(k) + [OPEN(DFACC_RDWR), CLOSE(), OPEN(DFACC_READ), CHECKALL(), GET(0), GET(1), CLOSE()]
         hs.append(scenario("C14.S1.%s.rw-noedit" % k, "C14", ops, disk=4096, group="C14.S1.noedit"))
+    from engine.h4v import H, libhdf_units
+    for gr_, an_ in ((0, 0), (1, 0), (0, 1)):
+        hs.append(H("C14.S2.vro.gr%d.an%d" % (gr_, an_), "C14", src="harness/C14/s2_vro.c", units=libhdf_units(), models=["memio", "herr", "memloops", "printf"],
+                    defs={"WITHGR": gr_, "WITHAN": an_, "MEMIO_DISK_SZ": 8192}, unwind=5000, kind="S", timeout=1800, symbolic="24 payload bytes",
+                    bound="concrete read-only program over V/VS%s%s" % ("/GR" if gr_ else "", "/AN" if an_ else ""), group="C14.S2", hang_is_violation=True))
     return hs
